@@ -14,6 +14,28 @@ _DATA_FUNCS = ['field:Data._unpack_fixed_size', 'field:Data._unpack_variable_siz
                'field:Data._unpack_with_regexp_marker', 'field:Data.pack']
 
 PROPERTIES = {
+    'C04': dict(
+        level='proof',
+        functions=['field:Int._unpack_fixed_and_primitive_size', 'field:Int._unpack_fixed_size',
+                   'field:Data._unpack_fixed_size', 'field:Data._unpack_variable_size_field',
+                   'field:Data._unpack_variable_size_callable', 'field:Data._unpack_with_string_marker',
+                   'field:Data._unpack_with_regexp_marker', 'field:Bits.unpack',
+                   'structural_fields:Sequence.unpack', 'structural_fields:Optional.unpack',
+                   'packet:Packet.unpack_impl', 'packet:Packet.unpack'],
+        lemmas=['C04.truncation'],
+        trusted_base=_COMMON_TRUST + ['abstract field contract for composite declarations'],
+        assumptions=['offset >= 0', 'assert statements are live (no python -O): the missing-delimiter checks are asserts',
+                     'generated unpack code is covered by C03'],
+    ),
+    'C07': dict(
+        level='proof',
+        functions=['field:Bits.unpack', 'field:Bits.pack'],
+        lemmas=['C07.unpack_slice', 'C07.pack_merge'],
+        trusted_base=_COMMON_TRUST + ['mask-shaped facts A1-A3 about & | ~ on unbounded python ints and << >> as multiplication / floor division by 2^s (assumed, cross-checked against CPython, bounded)',
+                                      'product law of 2**n'],
+        assumptions=['BitsWF: the per-member shift/mask/shared-Int state established by Bits._compile is assumed (Bits._compile, Bits.init and the ByteBoundaryError check are NOT under contract in this round)',
+                     'offset >= 0'],
+    ),
     'C17': dict(
         level='proof',
         functions=['descriptor:Auto._compile', 'descriptor:Auto.__get__', 'descriptor:Auto.__set__',
@@ -92,6 +114,19 @@ PROPERTIES = {
 }
 
 MANIFEST_TEXT = {
+    'C04': dict(
+        text='Proof for every value-bearing leaf kind (Int both code paths, Data all five modes, Bits runs of any width) and any input: a normal exit implies the value was decoded '
+             'from exactly the declared number of bytes, all inside the input (delimiters inside input and search window); a short slice, negative size or missing delimiter has no normal exit; '
+             'repeated/optional fields stop only as their conditions say (never because the input ended); Packet.unpack turns every failure into PacketError or None (silent). '
+             'The truncation clause follows as a lemma: cutting the input inside a field makes the slice short.',
+        note='Lifting to whole declarations goes through the abstract field contract of the packet drivers (C12); generated code through C03. The defect F1 (arbitrary-width Int decoded from a short slice) '
+             'was found by this contract and repaired in /repo (fix: 761fcdc).'),
+    'C07': dict(
+        text='Proof in two layers, for every width, shift and value without bound: (1) the real Bits.unpack / Bits.pack bodies compute (I & mask) >> shift and '
+             '((v << shift) & mask) | (I & ~mask) on the shared big-endian unsigned integer, read / emit the run only in the first / last member (VCs from the code); '
+             '(2) lemmas of pure integer arithmetic: the first is exactly the member\'s own slice; the second sets the own slice to v mod 2^w for any integer v and leaves every lower and higher disjoint slice untouched.',
+        note='The mask-shaped facts about python\'s bit operators on unbounded ints are assumed (cross-checked, bounded). Bits._compile (MSB-first shift assignment, byte-boundary rejection) '
+             'is assumed through the BitsWF precondition, not verified, in this round - stated in the evidence.'),
     'C17': dict(
         text='Proof of the per-operation contracts from which every history follows by induction: with visible = computed value while the enabled flag is unset/true, '
              'hidden value otherwise - __get__ returns visible; __set__(v) makes visible == v (independent of the tracked field); __delete__ re-enables the computed value; '
